@@ -10,7 +10,7 @@
  *
  *   rv <ns> <ni> <nm> <op>*      ops: s (attempt scribble) r (revert) u (update) f (fork: deep copy)
  *        tags every field, applies the ops, dumps every field:   name=tag ...
- *   run <dyn> <mSub> <iterMax> <ppolicy> <aa> <ni> <minTs> <maxTs> <minF> <maxF> <ti> <te> <na> (kind factor at)*na
+ *   run <dyn> <mSub> <iterMax> <ppolicy> <aa> <ni> <minTs> <maxTs> <minF> <maxF> <nt> time*nt <na> (kind factor at)*na
  *        runs GenericSolver::execute with injected failures, then replays the accepted steps only on a
  *        fresh copy of the initial state, dumps both final states
  */
@@ -286,6 +286,7 @@ static std::string run_once(World& w,
   MockStudy s;
   s.n = w.st.u0.size();
   s.script = script;
+  s.late_convergence = true;
   Physics ph{&w};
   s.on_prepare = [&ph](mtest::StudyCurrentState& st, real t, real dt) { ph.prepare(st, t, dt); };
   s.on_compute = [&ph](mtest::StudyCurrentState& st, Vector& r, real t, real dt, int call) {
